@@ -86,6 +86,8 @@ def array_ops(kind, arr, boxes, shape):
         q[f"ib{b}"] = [bool(x) for x in arr.intersects_bounds(b)]
     if kind == "point":
         q["intersects"] = [bool(x) for x in arr.intersects(shape)]
+        # the form restricted to positions (all of them, back to front): same answers, also for the inert rows named in it
+        q["intersects(inds)"] = [bool(x) for x in arr.intersects(shape, inds=np.arange(n)[::-1])][::-1] if n else []
     tb = q["total_bounds"]
     if "nan" not in tb:
         q["hilbert"] = [int(x) for x in arr.hilbert_distance(p=7)]
@@ -117,7 +119,7 @@ def check_array_level(chk, kind, els, plus, keep, boxes, shape, rep):
                 chk.violation(f"inert/{kind}/bounds-of-inert-row-not-nan", dict(rep, row=i, element=el, impl=v)); return False
             if name in ("length", "area") and el is None and v != "nan":
                 chk.violation(f"inert/{kind}/{name}-of-missing-not-nan", dict(rep, row=i, impl=v)); return False
-            if (name.startswith("ib") or name == "intersects") and v is not False:
+            if (name.startswith("ib") or name.startswith("intersects")) and v is not False:
                 chk.violation(f"inert/{kind}/{name.split('(')[0]}-true-for-inert-row", dict(rep, row=i, element=el, quantity=name)); return False
     chk.count("array-level")
     return True
@@ -314,7 +316,8 @@ def run_cases(chk, tier):
     construction_with_inert(chk, r)
     rounds = 6 if tier == "quick" else 60
     boxes = [(0, 0, 5, 5), (-3, 2, 4, 9), (1, 1, 1, 1), (-1000, -1000, 1000, 1000)]
-    shape = geo.make_array("polygon", [[[0, 0, 9, 0, 9, 9, 0, 9, 0, 0]]], "float64")[0]
+    # the origin lies strictly inside the shape (the slot of a missing point holds zero bytes)
+    shape = geo.make_array("polygon", [[[-2, -3, 9, -3, 9, 9, -2, 9, -2, -3]]], "float64")[0]
     for kind in geo.KINDS:
         for k in range(rounds):
             els = random_family(kind, r, r.randint(1, 6), 8)
